@@ -3,6 +3,7 @@
 package corerad
 
 import (
+	"errors"
 	"fmt"
 	"net/netip"
 	"os"
@@ -36,6 +37,7 @@ type c07Case struct {
 	Name        string  `json:"name"`
 	UnicastOnly bool    `json:"unicast_only"`
 	RS          []c07RS `json:"solicitations"`
+	Fault       string  `json:"fault,omitempty"` // "" | unicast-write-fails | unicast-write-fails+cancel
 }
 
 func c07Cases() []c07Case {
@@ -61,6 +63,11 @@ func c07Cases() []c07Case {
 			}
 			cs = append(cs, c07Case{Name: n, UnicastOnly: uo, RS: p.rs})
 		}
+	}
+	// Failed transmissions: the solicited answer's WriteTo fails, with and without a
+	// stop arriving while that write is in flight.
+	for _, f := range []string{"unicast-write-fails", "unicast-write-fails+cancel"} {
+		cs = append(cs, c07Case{Name: "single/" + f, RS: pats[0].rs, Fault: f})
 	}
 	return cs
 }
@@ -99,6 +106,29 @@ func c07Scenario(c c07Case) *vsched.Scenario {
 		Setup: func(x *vsched.Exec) {
 			res = c07Result{}
 			a = newAdvWorld(cfg, true, false)
+			arm := make(chan struct{})
+			if c.Fault != "" {
+				a.latency = true
+				fired := false
+				a.writeFault = func(_ *fconn, dst netip.Addr) error {
+					if dst.IsMulticast() {
+						return nil
+					}
+					if !fired {
+						fired = true
+						close(arm)
+					}
+					return errors.New("verif: injected transmit failure")
+				}
+			}
+			if c.Fault == "unicast-write-fails+cancel" {
+				x.Spawn("stopper", func() {
+					vsched.Recv("harness:armed", arm)
+					vsched.Obs("cancel", "")
+					a.term.set(os.Interrupt)
+					a.cancel()
+				})
+			}
 			x.Spawn("advertiser", a.run)
 			x.Spawn("client", func() {
 				defer a.done()
@@ -114,8 +144,14 @@ func c07Scenario(c c07Case) *vsched.Scenario {
 				}
 				// Quiet: long enough for every response (<=500ms) and every rate-limited multicast RA (<=3s).
 				vsched.Sleep(4 * time.Second)
-				res.series = a.mem.Series()
 				res.stopAt = a.now()
+				if c.Fault != "" {
+					// The advertiser has stopped on its own (or was stopped): read the
+					// counters once everything is over.
+					a.cancel()
+					vsched.Sleep(2 * time.Second)
+				}
+				res.series = a.mem.Series()
 				vsched.Obs("script-end", "")
 				a.term.set(os.Interrupt)
 				a.cancel()
@@ -151,8 +187,10 @@ func c07Scenario(c c07Case) *vsched.Scenario {
 			bad("C07:harness", "script did not complete")
 			return out
 		}
-		if ret, err, _ := a.returned(); !ret || err != nil {
+		if ret, err, _ := a.returned(); !ret || (err != nil && c.Fault == "") {
 			bad("C07:run", "Run returned=%t err=%v", ret, err)
+		} else if c.Fault == "unicast-write-fails" && err == nil {
+			bad("C07:transmit-error-not-reported", "a failed transmission did not end the task with an error")
 		}
 		// When was each solicitation read?
 		type readEv struct {
@@ -173,8 +211,11 @@ func c07Scenario(c c07Case) *vsched.Scenario {
 		exp, _ := ref.RA(want, &ref.State{Name: "eth0", MAC: a.mac.String(), Forwarding: true}, c07Epoch)
 		var uni, multi []wrec
 		for _, w := range a.Writes() {
-			if w.T >= res.stopAt && isAllNodes(w.Dst) && w.RA != nil && w.RA.RouterLifetime == 0 {
-				continue // the final RA
+			if c.UnicastOnly && w.Dst.IsMulticast() {
+				bad("C07:multicast-in-unicast-only", "unicast-only interface transmitted to %s at %s (router lifetime %v)", w.Dst, w.T, w.RA.RouterLifetime)
+			}
+			if isAllNodes(w.Dst) && w.RA != nil && w.RA.RouterLifetime == 0 {
+				continue // the final RA (the configured lifetime is non-zero and forwarding is on)
 			}
 			if isAllNodes(w.Dst) {
 				multi = append(multi, w)
@@ -186,9 +227,6 @@ func c07Scenario(c c07Case) *vsched.Scenario {
 			if w.Err == nil && !reflect.DeepEqual(w.RA, exp) {
 				bad("C07:payload", "RA to %s at %s differs from the configured RA: %+v want %+v", w.Dst, w.T, w.RA, exp)
 			}
-		}
-		if c.UnicastOnly && len(multi) > 0 {
-			bad("C07:multicast-in-unicast-only", "unicast-only interface transmitted to %s at %s", multi[0].Dst, multi[0].T)
 		}
 		// Conservation and timing of unicast answers (per source, FIFO).
 		wantDst := map[string][]time.Duration{}
@@ -217,6 +255,8 @@ func c07Scenario(c c07Case) *vsched.Scenario {
 		for _, k := range keys {
 			w, g := wantDst[k], gotDst[k]
 			switch {
+			case c.Fault != "":
+				// the answer's transmission failed by construction
 			case len(g) < len(w):
 				bad("C07:solicitation-lost", "%d solicitations from %s read at %v, %d unicast RAs to it at %v", len(w), k, w, len(g), g)
 			case len(g) > len(w):
@@ -252,7 +292,7 @@ func c07Scenario(c c07Case) *vsched.Scenario {
 		// Counters.
 		okU, okM, failed := 0, 0, 0
 		for i, w := range a.Writes() {
-			if (w.T >= res.stopAt && isAllNodes(w.Dst) && w.RA != nil && w.RA.RouterLifetime == 0) || (i == 0 && isAllNodes(w.Dst) && w.T == 0) {
+			if (isAllNodes(w.Dst) && w.RA != nil && w.RA.RouterLifetime == 0) || (i == 0 && isAllNodes(w.Dst) && w.T == 0) {
 				continue // final and initial RA are sent outside the scheduler and not counted
 			}
 			switch {
